@@ -545,6 +545,9 @@ func runC20(c *core.Ctx) {
 		}
 		c.Check(good, "R8", tn+"/idle-duration/unchanged", pos, "initialised once, from the constructor's parameter", why)
 	}
+	// a routed panic arrives: the pipeline's exception entry point fires on every path
+	c.Rule("R9", "FireChannelException delivers on every path (shared with C03-R4)", 1)
+	importObligations(c, runC03, "R9", func(o *core.Obligation) bool { return o.Rule == "R4" && strings.Contains(o.Key, "fire/FireChannelException") })
 	// "never after inactive" presupposes the lifecycle order: the channel is handed out (and can be closed) only
 	// after the active event, which arms the timers, has been delivered
 	c.Rule("R7", "the channel is released to its creator only after the active event was delivered (shared with C05-R4)", 1)
